@@ -180,7 +180,178 @@ def nonbool_ite(g, rng):
     return None
 
 
-def gen_core_script(rng, logic=None, minimal=None, full=None, incremental=None, risky=0.25, n_kits=None):
+def nestings(r, parts):
+    """the same conjunction in syntactically different shapes that construction / preprocessing bring to one form
+    (nested and, reordered arguments, neutral conjuncts, double negation)"""
+    parts = list(parts)
+    out = []
+    if len(parts) == 2:
+        a, b = parts
+        out = ["(and %s %s)" % (a, b), "(and %s %s)" % (b, a), "(and %s (and %s true))" % (a, b), "(and (and %s %s) %s)" % (a, b, a),
+               "(not (not (and %s %s)))" % (a, b), "(and %s %s %s)" % (a, b, b)]
+    else:
+        a, b, c = parts[:3]
+        out = ["(and %s (and %s %s))" % (a, b, c), "(and (and %s %s) %s)" % (a, b, c), "(and %s %s %s)" % (c, b, a),
+               "(and %s %s %s)" % (a, b, c), "(and (and %s %s) (and %s %s))" % (a, b, b, c), "(not (not (and %s (and %s %s))))" % (a, b, c),
+               "(and %s (and %s (and %s true)))" % (a, b, c)]
+    return out
+
+
+def gen_directed(rng, kind, logic, minimal, full):
+    """Directed histories (details randomised):
+    two-names     one term under several names of different lifetime: named at level 0, named again on a subterm / at the top
+                  of an assertion inside pushed levels, pops in between, a core requested after each pop that needs the term;
+    reassert      a conjunction is asserted, checked and popped, then the same or a differently shaped conjunction with the same
+                  flattened form is asserted again and needed for the refutation;
+    late          assertions added AFTER an unsat answer (same level or in a level pushed on top) that make a member of the
+                  earlier core redundant, followed by a new check-sat / get-unsat-core."""
+    r = rng
+    g = scriptgen.Gen(r, logic, big=False, divmod=False)
+    K = Kits(r, g)
+    feats = {"directed:" + kind}
+    lines = ["(set-option :produce-unsat-cores true)"]
+    if minimal:
+        lines.append("(set-option :minimal-unsat-cores true)")
+    if full:
+        lines.append("(set-option :print-cores-full true)")
+    lines.append("(set-logic %s)" % ("QF_UF" if logic == "QF_BOOL" else logic))
+    lines += g.decls
+    fill = ["x%d%d" % (i, j) for i in (1, 2, 3) for j in (1, 2)]
+    lines += ["(declare-fun %s () Bool)" % x for x in fill]
+    cnt = [0]
+
+    def fresh(prefix="n"):
+        cnt[0] += 1
+        return "%s%d" % (prefix, cnt[0])
+
+    def named(f, p=0.85):
+        return "(assert (! %s :named %s))" % (f, fresh()) if r.random() < p else "(assert %s)" % f
+
+    def query(twice=0.2):
+        lines.append("(check-sat)")
+        lines.append("(get-unsat-core)")
+        if r.random() < twice:
+            lines.append("(get-unsat-core)")
+
+    def usable_kit():
+        for _ in range(30):
+            k, _red = K.kit()
+            if 2 <= len(k) <= 6 and not any(x.startswith("x") and x[1:].isdigit() for f in k for x in f.replace("(", " ").replace(")", " ").split()):
+                return k
+        return K.chain()
+
+    kit = usable_kit()
+    r.shuffle(kit)
+    if kind == "two-names":
+        last = kit[-1]
+        base = kit[:-1]
+        for f in base:
+            lines.append("(assert (! %s :named %s))" % (f, fresh("base")))
+        if r.random() < 0.5:
+            lines.append("(assert %s)" % r.choice(fill))
+        if r.random() < 0.4:
+            lines.append("(check-sat)")
+        depth = 0
+        for _round in range(r.randint(1, 3)):
+            npush = r.randint(1, 2)
+            for _ in range(npush):
+                lines.append("(push 1)")
+                depth += 1
+                for f in r.sample(base, r.randint(1, len(base))):
+                    q = r.choice(fill)
+                    shape = r.random()
+                    if shape < 0.3:
+                        lines.append("(assert (or (not (! %s :named %s)) %s))" % (f, fresh("inner"), q))
+                    elif shape < 0.55:
+                        lines.append("(assert (! (or %s (! %s :named %s)) :named %s))" % (q, f, fresh("inner"), fresh()))
+                    elif shape < 0.75:
+                        lines.append("(assert (=> %s (! %s :named %s)))" % (q, f, fresh("inner")))
+                    elif shape < 0.9:
+                        lines.append("(assert (! (and (! %s :named %s) %s) :named %s))" % (f, fresh("inner"), q, fresh()))
+                    else:
+                        lines.append("(assert (! %s :named %s))" % (f, fresh("again")))      # the same term asserted again: second top-level name
+                        feats.add("term-asserted-again-in-push")
+            if r.random() < 0.5:
+                # unsatisfiable inside the pushed levels as well
+                lines.append(named(last))
+                query()
+            elif r.random() < 0.5:
+                lines.append("(check-sat)")
+            n = r.randint(1, depth)
+            lines.append("(pop %d)" % n)
+            depth -= n
+            if depth == 0 or r.random() < 0.6:
+                lines.append("(push 1)")
+                depth += 1
+                lines.append(named(last, 0.9))
+                query()
+                lines.append("(pop 1)")
+                depth -= 1
+        if depth:
+            lines.append("(pop %d)" % depth)
+        lines.append(named(last, 0.9))
+        query(0.4)
+    elif kind == "reassert":
+        # conjuncts: one or two kit members and fillers; at least one kit member stays outside
+        inside = kit[: max(1, min(len(kit) - 1, r.randint(1, 2)))]
+        outside = kit[len(inside):]
+        parts = inside + r.sample(fill, 3 - len(inside) if r.random() < 0.7 else 2 - min(len(inside), 1))
+        parts = parts[:3] if len(parts) >= 3 else parts
+        if len(parts) < 2:
+            parts.append(r.choice(fill))
+        shapes = nestings(r, parts)
+        if r.random() < 0.4:
+            lines.append(named(r.choice(fill)))
+        rounds = r.randint(1, 3)
+        for i in range(rounds):
+            lines.append("(push 1)")
+            lines.append(named(r.choice(shapes), 0.6))
+            if r.random() < 0.3:
+                lines.append(named(r.choice(fill)))
+            lines.append("(check-sat)")
+            if r.random() < 0.3:
+                lines.append("(push 1)")
+                for f in outside:
+                    lines.append(named(f))
+                query()
+                lines.append("(pop 1)")
+            lines.append("(pop 1)")
+        if r.random() < 0.6:
+            lines.append("(push 1)")
+        final = r.choice(shapes) if r.random() < 0.7 else shapes[0]
+        lines.append(named(final, 0.7))
+        for f in outside:
+            lines.append(named(f, 0.9))
+        query(0.3)
+    else:  # late
+        for f in kit:
+            lines.append(named(f, 0.95))
+        for _ in range(r.randint(0, 2)):
+            lines.append(named(r.choice(fill), 0.5))
+        query()
+        for _round in range(r.randint(1, 2)):
+            pushed = r.random() < 0.5
+            if pushed:
+                lines.append("(push 1)")
+            for f in r.sample(kit, r.randint(1, min(2, len(kit)))):
+                shape = r.random()
+                q = r.choice(fill)
+                if shape < 0.5:
+                    lines.append("(assert (and %s %s))" % (f, q))
+                elif shape < 0.75:
+                    lines.append("(assert (and %s %s))" % (q, f))
+                else:
+                    lines.append("(assert (not (or (not %s) (not %s))))" % (f, q))
+            if r.random() < 0.3:
+                lines.append(named(r.choice(fill)))
+            query(0.3)
+            if pushed and r.random() < 0.5:
+                lines.append("(pop 1)")
+                query()
+    return "\n".join(lines) + "\n", dict(logic=logic, minimal=minimal, full=full, incremental=True, features=sorted(feats))
+
+
+def gen_core_script(rng, logic=None, minimal=None, full=None, incremental=None, risky=0.25, n_kits=None, directed=0.3):
     """risky: probability scale of the constructs that are known to trigger genuine defects
     (term asserted both named and unnamed, nested names whose subterm is also asserted, non-Boolean ite in a
     named assertion, names popped and terms re-asserted).  The plain constructs are always used."""
@@ -189,6 +360,11 @@ def gen_core_script(rng, logic=None, minimal=None, full=None, incremental=None, 
     minimal = (r.random() < 0.5) if minimal is None else minimal
     full = (r.random() < 0.3) if full is None else full
     incremental = (r.random() < 0.45) if incremental is None else incremental
+    if r.random() < directed:
+        kind = r.choice(["two-names", "reassert", "late"])
+        if kind == "late" and minimal is None or (kind == "late" and r.random() < 0.7):
+            minimal = True
+        return gen_directed(r, kind, logic, minimal, full)
     g = scriptgen.Gen(r, logic, big=False, divmod=False)
     K = Kits(r, g)
     feats = set()
